@@ -71,6 +71,9 @@ TAG_TEMPLATES: list[str] = [
     "{{ l | default: m, allow_false: n }}",
     "{% translate count: l, v: m %}a {{ v }}{% plural %}b {{ count }}{% endtranslate %}",
     "{% translate context: l, count: m %}a{% plural %}b{% endtranslate %}",
+    "{% translate v: l %}100%{{ v }} %% {{ v }}% ( %s %d %({{ v }}){% endtranslate %}",
+    "{% translate count: l, v: m %}%{{ v }}{% plural %}{{ count }}%{{ v }}%%{% endtranslate %}",
+    "{{ '100% %(v)s %% %s %(' | t: v: l }}{{ l | t }}{{ '%' | ngettext: '%%(v)s', m }}",
     "{% ifchanged %}{{ l }}{% endifchanged %}{% ifchanged %}{{ m }}{% endifchanged %}",
     "{% liquid assign q = l | plus: m\necho q\nfor i in n\necho i\nendfor %}",
     "{% for i in l %}{% for j in m %}{{ forloop.parentloop.index }}{{ j }}{% endfor %}{% endfor %}",
